@@ -965,7 +965,7 @@ def t3_literals(prog, rep):
         for cond, truth in f.edge_conds(r):
             for op, L, R, Le, _ in cond_atoms(cond, truth):
                 k = Le.strip() if Le is not None else None
-                if k is not None and k.cls == "CallExpr" and k.callee == "memcmp" and op == "==" and R == ("c", 0) and k.arg(0) is not None and norm(k.arg(0)) == B and \
+                if k is not None and k.cls == "CallExpr" and k.callee in ("memcmp", "strncmp") and op == "==" and R == ("c", 0) and k.arg(0) is not None and norm(k.arg(0)) == B and \
                         k.arg(1) is not None and k.arg(1).strip() is not None and k.arg(1).strip().strv is not None and k.arg(2) is not None and norm(k.arg(2)) == ("c", n):
                     lit = k.arg(1).strip().strv
                 if op == ">=" and L == ("-", E, B) and R == ("c", n):
